@@ -343,7 +343,8 @@ func (e *Engine) applyContractFr(fr *Frame, st *State, ct *Contract, fn *ssa.Fun
 			e.errorf("%s: evaluating requires of %s: %v", fr.fn, ct.Key, err)
 			return
 		}
-		e.addObligation(st, fr, "callee-precondition", append([]string{"pre"}, rq.Tags...), ct.Key+": requires "+rq.Src, e.posStr(pos), v.T, nil)
+		po := e.addObligation(st, fr, "callee-precondition", append([]string{"pre"}, rq.Tags...), ct.Key+": requires "+rq.Src, e.posStr(pos), v.T, e.topProbes(st))
+		po.Prefer = e.topPrefers(st)
 		st.assume(v.T)
 	}
 	// havoc what the callee may modify
@@ -661,7 +662,30 @@ func (e *Engine) builtin(fr *Frame, st *State, b *ssa.Builtin, c *ssa.CallCommon
 		res := st.define("appended", sSlice, fmt.Sprintf("(mkSlice %s (s_off %s) %s %s)", ref, x.T, nl, nc))
 		return &Val{T: res, S: sSlice, Typ: c.Args[0].Type()}, nil
 	case "copy":
-		return nil, fmt.Errorf("builtin copy (outside subset)")
+		// copy never panics; it returns min(len(dst), len(src)).  The destination's new content is not modelled:
+		// a []byte destination is an immutable value in this model (its later reads see unconstrained bytes only if
+		// it is re-created from its array), any other element kind is havocked.
+		dst, src := args[0], args[1]
+		ln := func(v *Val) string {
+			switch v.S {
+			case sBytes:
+				return "(slen (b_str " + v.T + "))"
+			case sStr:
+				return "(slen " + v.T + ")"
+			case sSlice:
+				return "(s_len " + v.T + ")"
+			}
+			return "#x0000000000000000"
+		}
+		n := st.fresh("copied", sBV64)
+		st.assume(eq(n, ite("(bvslt "+ln(dst)+" "+ln(src)+")", ln(dst), ln(src))))
+		if dst.S == sSlice {
+			es := e.reg.sortOf(c.Args[0].Type().Underlying().(*types.Slice).Elem())
+			e.heapHavoc(st, e.keyElem(es))
+		} else {
+			e.warnf("%s: copy into a []byte at %s: destination content not modelled", fr.fn, e.posStr(pos))
+		}
+		return &Val{T: n, S: sBV64, Typ: types.Typ[types.Int]}, nil
 	case "delete":
 		return nil, fmt.Errorf("builtin delete (outside subset)")
 	case "print", "println":
